@@ -24,7 +24,8 @@ def decoOf (s : String) : Option Deco :=
     | ["for_all_methods", i] => (innerOf i).map .forAll
     | _ => none
 
-def targetOf (j : Json) : Target := ⟨jB (jF j "cls"), jB (jF j "doc"), jB (jF j "full"), jB (jF j "odd")⟩
+def targetOf (j : Json) : Target :=
+  ⟨jB (jF j "cls"), jB (jF j "doc"), jB (jF j "full"), jB (jF j "odd"), jB (jF j "falsy"), jB (jF j "generic")⟩
 
 def memberOf : String → Option Member
   | "m" => some .method
@@ -43,6 +44,8 @@ def kindOf : String → Option CallKind
   | "good" => some .good
   | "positional" => some .positional
   | "wrongType" => some .wrongType
+  | "unparamInst" => some .unparamInst
+  | "paramInst" => some .paramInst
   | _ => none
 
 def envOf (j : Json) : Option String := match j with | .str s => some s | _ => none
